@@ -205,11 +205,11 @@ Theorem accept_q_inf_sound m :
   accept_q true 1 0 m (2%nat, 0) = true -> ovf * (1 - 1 * rtol) <= m.
 Proof. unfold accept_q. cbn [fst]. intros H. apply Qle_bool_iff, H. Qed.
 
-(** F2 as the check sees it: the code's Viterbi star at exactly 0 is rejected by the oracle,
-    while the repaired value 0 would be accepted; away from 0 the code's value is accepted *)
-Example c08_star_check_F2 :
+(** Viterbi star as the check sees it: a result +inf at exactly 0 (the behaviour before the
+    repair of F2) is rejected by the oracle; the least solution 0 is accepted *)
+Example c08_star_check_at_zero :
   c08_star_check (2%nat, (1%nat, 0), (2%nat, 0)) = 1%nat /\
-  c08_star_check (2%nat, (1%nat, 0), (1%nat, 0)) = 10%nat /\
+  c08_star_check (2%nat, (1%nat, 0), (1%nat, 0)) = 0%nat /\
   c08_star_check (2%nat, (1%nat, -1 # 2), (1%nat, 0)) = 0%nat /\
   c08_star_check (2%nat, (1%nat, 1 # 2), (2%nat, 0)) = 0%nat.
 Proof. repeat split; vm_compute; reflexivity. Qed.
